@@ -65,7 +65,11 @@ def py_string(body: BStr, quote: str = '"'):
 def py_docstring(content: BStr, raw):
     # triple-double-quoted docstring around " <content> ", raw (r-prefixed) or not as chosen by `raw` — this is
     # helpers.jinja safe_docstring.  In both forms a backslash prevents the following quote from terminating.
-    body = core.concat([" ", content, " "])
+    return py_triple_body(core.concat([" ", content, " "]), raw)
+
+
+def py_triple_body(body: BStr, raw):
+    """Everything between the opening and the closing triple double quote of a (raw or plain) string literal."""
     bad, esc_at, cplx = _scan(body, '"', multiline=True, triple=True)
     # non-raw: unknown escapes (\\x.. etc.) may be syntax errors -> complex; raw: nothing is interpreted
     return z3.Not(bad), z3.And(z3.Not(raw), cplx)
